@@ -47,6 +47,25 @@ def wmw_status(ctx, prog):
         if v not in seen:
             ctx.missing(R, "store of IncrStatus::" + v)
     ctx.floor(R, len(ws), 3)
+    # any Cell<IncrStatus> store, however the cell is reached (e.g. through a guard struct holding `&Cell<IncrStatus>`)
+    typed = []
+    for F in prog.fns.values():
+        if not F.crate.startswith("incremental"):
+            continue
+        for t in F.calls():
+            if q.callee_is(t, "core::cell::Cell::set", "core::cell::Cell::replace", "core::cell::Cell::swap") and \
+                    t.generics and t.generics[0] == "incremental::state::IncrStatus":
+                typed.append(t)
+    known_sites = {(a.fn.path, a.bb) for a in ws}
+    for t in typed:
+        ctx.site(R, t.fn, "bb%d Cell<IncrStatus> store" % t.bb)
+        if (t.fn.path, t.bb) in known_sites:
+            continue
+        e = expr(t.fn, t.args[1], DefUse(t.fn)) if len(t.args) > 1 else ("?",)
+        in_drop = t.fn.impl_trait == "core::ops::drop::Drop"
+        ctx.fail(R, "typed-store:" + t.fn.short, "the engine status is stored (%s) through an alias of State.status in %s%s: "
+                 "the status can be reset while a panic unwinds" % (show(e), t.fn.short, " (a Drop impl)" if in_drop else ""),
+                 fn=t.fn, span=t.span)
     # NotStabilising is the last action of stabilise_end
     for a in seen.get("NotStabilising", []):
         F = a.fn
